@@ -92,14 +92,14 @@ def _walk(args):
             here = path + [st["call"]]
             for clause, what in bad:
                 fails.append({"clause": clause, "what": what, "history": here, "inst": inst.describe(),
-                              "variant": variant, "kind": kind})
+                              "variant": variant, "kind": kind, "expected": ob})
             rec(ent["kids"], o, proj if outcome == "ok" else None, here)
 
     rec(tree, inst.new(), None, [])
     return nsteps, fails, len(refs)
 
 
-def replay_histories(ctx: core.Ctx, kind: str, behs, variants, clauses=None) -> None:
+def replay_histories(ctx: core.Ctx, kind: str, behs, variants, clauses=None, keep=None) -> None:
     groups: dict[str, list] = {}
     for steps in behs:
         groups.setdefault(json.dumps(steps[0]["call"], sort_keys=True), []).append(steps)
@@ -108,7 +108,7 @@ def replay_histories(ctx: core.Ctx, kind: str, behs, variants, clauses=None) -> 
         for (k, v, g), (nsteps, fails, _nrefs) in zip(tasks, ex.map(_walk, tasks)):
             ctx.evaluations += nsteps
             for f in fails:
-                if clauses is None or f["clause"] in clauses:
+                if (clauses is None or f["clause"] in clauses) and (keep is None or keep(f)):
                     ctx.violation(f["clause"], f"{kind} reservoir, history {_fmt(f['history'])}: {f['what']}",
                                   replay={"stage": "history", **f})
     for v in variants:
